@@ -60,6 +60,7 @@ type addrMode struct {
 
 type addrLayout struct {
 	Top, Sub, GitDir, GitFileDir, Worktree, Bare, Outside string
+	LinkDeep, LinkDeepReal, LinkTop, LinkGitDir string // symbolic links: to a directory three levels down, to the top, to the git directory
 }
 
 var addrModes = []addrMode{
@@ -78,6 +79,19 @@ var addrModes = []addrMode{
 	{Name: "linked-worktree", Dir: func(l *addrLayout) string { return l.Worktree }, GitDir: func(l *addrLayout) string { return filepath.Join(l.GitDir, "worktrees", "wt") }},
 	{Name: "linked-worktree-subdir", Dir: func(l *addrLayout) string { return filepath.Join(l.Worktree, "sub") }, GitDir: func(l *addrLayout) string { return filepath.Join(l.GitDir, "worktrees", "wt") }},
 	{Name: "bare", Dir: func(l *addrLayout) string { return l.Bare }, GitDir: func(l *addrLayout) string { return l.Bare }},
+	// the start directory was entered through a symbolic link (PWD is the logical path, as after `cd link` in a
+	// shell) and GIT_DIR climbs out of it with "..": git resolves ".." physically
+	{Name: "symlinked-cwd-GIT_DIR-dotdot", Dir: func(l *addrLayout) string { return l.LinkDeep },
+		Env: func(l *addrLayout) []string {
+			rel, _ := filepath.Rel(l.LinkDeepReal, l.GitDir)
+			return []string{"GIT_DIR=" + rel}
+		}, GitDir: func(l *addrLayout) string { return l.GitDir }},
+	{Name: "symlink-to-top", Dir: func(l *addrLayout) string { return l.LinkTop }, GitDir: func(l *addrLayout) string { return l.GitDir }},
+	{Name: "subdir-below-symlink-to-top", Dir: func(l *addrLayout) string { return filepath.Join(l.LinkTop, "sub", "deeper") }, GitDir: func(l *addrLayout) string { return l.GitDir }},
+	{Name: "GIT_DIR-symlink", Dir: func(l *addrLayout) string { return l.Outside },
+		Env: func(l *addrLayout) []string { return []string{"GIT_DIR=" + l.LinkGitDir} }, GitDir: func(l *addrLayout) string { return l.GitDir }},
+	{Name: "GIT_DIR-dot-from-gitdir", Dir: func(l *addrLayout) string { return l.GitDir },
+		Env: func(l *addrLayout) []string { return []string{"GIT_DIR=."} }, GitDir: func(l *addrLayout) string { return l.GitDir }},
 }
 
 type addrCase struct {
@@ -181,6 +195,14 @@ func buildLayout(base string, ac *addrCase) (*addrLayout, *gitrepo.Repo, error) 
 	l.GitFileDir = filepath.Join(base, "gitfile")
 	os.MkdirAll(l.GitFileDir, 0o755)
 	os.WriteFile(filepath.Join(l.GitFileDir, ".git"), []byte("gitdir: "+l.GitDir+"\n"), 0o644)
+	l.LinkDeepReal = filepath.Join(base, "real", "a", "b")
+	os.MkdirAll(l.LinkDeepReal, 0o755)
+	l.LinkDeep = filepath.Join(base, "lnk")
+	os.Symlink(filepath.Join("real", "a", "b"), l.LinkDeep)
+	l.LinkTop = filepath.Join(base, "real", "toplink")
+	os.Symlink(l.Top, l.LinkTop)
+	l.LinkGitDir = filepath.Join(base, "real", "a", "gitdirlink")
+	os.Symlink(l.GitDir, l.LinkGitDir)
 	// names of replace refs sort after expansion: fix the order of the roots
 	for i := range ac.SC.Roots {
 		ac.SC.Roots[i].Name = expandPlaceholders(ac.SC.Roots[i].Name, repo)
@@ -235,6 +257,9 @@ func (e *c10Env) runAddr(l *addrLayout, m addrMode, base string, race *run.Build
 	defer os.RemoveAll(work)
 	logf := filepath.Join(work, "git.log")
 	env := []string{"VERIF_GITLOG=" + logf, "VERIF_FAULT_DIR=" + work}
+	// as after `cd <dir>` in a shell: PWD is the logical path of the start directory (Go's os.Getwd and
+	// filepath.Abs trust it when it denotes the working directory)
+	env = append(env, "PWD="+m.Dir(l))
 	if m.Env != nil {
 		env = append(env, m.Env(l)...)
 	}
@@ -287,11 +312,7 @@ func logProblems(ar *addrRun, l *addrLayout, m addrMode) []string {
 		if rec.GraftFile != "/dev/null" {
 			out = append(out, "grafts_not_disabled")
 		}
-		gd := rec.GitDir
-		if !filepath.IsAbs(gd) {
-			gd = filepath.Join(rec.Cwd, gd)
-		}
-		got, _ := filepath.EvalSymlinks(gd)
+		got := resolveDir(rec.Cwd, rec.GitDir)
 		if got != want {
 			out = append(out, "GIT_DIR_is_not_the_repository")
 		}
